@@ -384,6 +384,7 @@ def run_world(ctx, w, hook, rng):
             after = w.subtype_tables()
             case = {"xml": w.xml, "text": text, "load_index": li, "via": via,
                     "components": [[n, ts] for n, ts in w.components],
+                    "imports": dict(w.imports),
                     "schema_level": list(w.schema_level)
                     if w.schema_level else None, "model": w.model}
             if "%import" in text:
@@ -481,9 +482,10 @@ def replay(ctx, case):
         comps = list(case["components"])
         if case.get("schema_level"):
             comps.append(case["schema_level"])
+        imports = case.get("imports", {})
         for n, ts in comps:
             space.write(n, {"component.xml": packages.component_xml(
-                ts, base.group(1) if base else None)})
+                ts, base.group(1) if base else None, imports.get(n, ()))})
 
         class W:
             pass
@@ -492,6 +494,8 @@ def replay(ctx, case):
         w.components = [(n, ts) for n, ts in case["components"]]
         w.schema_level = tuple(case["schema_level"]) \
             if case.get("schema_level") else None
+        w.imports = imports
+        w.closure = lambda imported: World.closure(w, imported)
         w.resolved_with = lambda imported: World.resolved_with(w, imported)
         schema = ZConfig.loadSchemaFile(io.StringIO(case["xml"]))
         exp = expected(w, case["text"])
